@@ -2,6 +2,7 @@ SPECIFICATION Spec
 CONSTANTS
   Rel = "rfc"
   Budget = 0
+  Foreign = TRUE
 INVARIANTS TypeOK NeverAdminDown UpMeansPeerAlive KnowsPeer
 PROPERTIES SilenceMeansDown Recovers StaysUp
 CHECK_DEADLOCK FALSE
